@@ -51,6 +51,28 @@ def lookup (rel : Option String) (name : String) : List Scope → Except RErr RV
 
 def nulls (n : Nat) : Row := List.replicate n none
 
+def mapME (f : α → Except RErr β) : List α → Except RErr (List β)
+  | [] => .ok []
+  | a :: as => do
+    let b ← f a
+    let bs ← mapME f as
+    pure (b :: bs)
+
+def filterME (f : α → Except RErr Bool) : List α → Except RErr (List α)
+  | [] => .ok []
+  | a :: as => do
+    let keep ← f a
+    let rest ← filterME f as
+    pure (if keep then a :: rest else rest)
+
+def withIdx : Nat → List α → List (α × Nat)
+  | _, [] => []
+  | n, a :: as => (a, n) :: withIdx (n + 1) as
+
+def dedupRows : List Row → List Row
+  | [] => []
+  | r :: rs => r :: (dedupRows rs).filter (fun x => x != r)
+
 /-- key equality of a join: all pairs equal and non-NULL -/
 def keysMatch (kl kr : List RVal) : Bool :=
   kl.length == kr.length && (kl.zip kr).all (fun (a, b) => a.isSome && a == b)
@@ -107,7 +129,7 @@ def evalAggE (o : Ops) (cat : String → Option (List Row)) (outer : List Scope)
   | .lit ty v => .ok (o.lit ty v)
   | .op kind tag args =>
     if kind == "agg" then do
-      let vecs ← group.mapM (fun r => evalEs o cat ((sch, r) :: outer) args)
+      let vecs ← mapME (fun r => evalEs o cat ((sch, r) :: outer) args) group
       o.agg tag vecs
     else do
       let vs ← evalAggEs o cat outer sch group args
@@ -135,7 +157,7 @@ def evalWinEs (o : Ops) (cat : String → Option (List Row)) (outer : List Scope
     let v ← (match e with
       | .op kind tag args =>
         if kind == "window" then do
-          let vecs ← rows.mapM (fun r => evalEs o cat ((sch, r) :: outer) args)
+          let vecs ← mapME (fun r => evalEs o cat ((sch, r) :: outer) args) rows
           o.win tag idx vecs
         else do
           let vs ← evalEs o cat ((sch, row) :: outer) args
@@ -155,46 +177,49 @@ def exec (o : Ops) (cat : String → Option (List Row)) (outer : List Scope) : P
     match cat table with
     | none => .error .other
     | some rows =>
-      let sch := match proj with | some idx => projectSchema s idx | none => s
-      let prows := match proj with
-        | some idx => rows.map (fun (r : Row) => idx.filterMap (fun i => if i < s.length then some (r.getD i none) else none))
-        | none => rows
-      prows.filterM (fun r => do
-        let vs ← evalEs o cat ((sch, r) :: outer) filter
-        pure (vs.all truthy))
+      -- a provider whose batches do not have the declared width fails with a schema error, not ColumnNotFound
+      if rows.all (fun (r : Row) => r.length == s.length) then
+        let sch := match proj with | some idx => projectSchema s idx | none => s
+        let prows := match proj with
+          | some idx => rows.map (fun (r : Row) => idx.filterMap (fun i => r[i]?))
+          | none => rows
+        filterME (fun r => do
+          let vs ← evalEs o cat ((sch, r) :: outer) filter
+          pure (vs.all truthy)) prows
+      else .error .other
   | .filter pred i => do
     let rows ← exec o cat outer i
-    rows.filterM (fun r => do pure (truthy (← evalE o cat ((outSchema i, r) :: outer) pred)))
+    filterME (fun r => do pure (truthy (← evalE o cat ((outSchema i, r) :: outer) pred))) rows
   | .project exprs _ i => do
     let rows ← exec o cat outer i
-    rows.mapM (fun r => evalEs o cat ((outSchema i, r) :: outer) exprs)
+    mapME (fun r => evalEs o cat ((outSchema i, r) :: outer) exprs) rows
   | .join jt onL onR filter _ l r => do
     let ls ← exec o cat outer l
     let rs ← exec o cat outer r
     let sl := outSchema l
     let sr := outSchema r
-    let pairs ← ls.mapM (fun lr => do
+    let pairs ← mapME (fun lr => do
       let kl ← evalEs o cat ((sl, lr) :: outer) onL
-      let ms ← rs.filterM (fun rr => do
+      let ms ← filterME (fun rr => do
         let kr ← evalEs o cat ((sr, rr) :: outer) onR
         let fs ← evalEs o cat ((sl ++ sr, lr ++ rr) :: outer) filter
-        pure ((onL.isEmpty || keysMatch kl kr) && fs.all truthy))
-      pure (lr, ms))
+        pure ((onL.isEmpty || keysMatch kl kr) && fs.all truthy)) rs
+      pure (lr, ms)) ls
     let matched := pairs.flatMap (·.2)
     pure (emitJoin jt sl.length sr.length pairs (rs.filter (fun rr => !matched.contains rr)))
   | .agg group aggs _ i => do
     let rows ← exec o cat outer i
     let sch := outSchema i
-    let keyed ← rows.mapM (fun r => do pure ((← evalEs o cat ((sch, r) :: outer) group), r))
+    let keyed ← mapME (fun r => do pure ((← evalEs o cat ((sch, r) :: outer) group), r)) rows
     let groups := if group.isEmpty then [([], rows)] else groupRows keyed
-    groups.mapM (fun (k, g) => do pure (k ++ (← evalAggEs o cat outer sch g aggs)))
+    mapME (fun (kg : List RVal × List Row) => do pure (kg.1 ++ (← evalAggEs o cat outer sch kg.2 aggs))) groups
   | .window _ wexprs _ i => do
     let rows ← exec o cat outer i
     let sch := outSchema i
-    rows.zipIdx.mapM (fun (r, idx) => do pure (r ++ (← evalWinEs o cat outer sch rows idx r wexprs)))
+    mapME (fun (ri : Row × Nat) => do pure (ri.1 ++ (← evalWinEs o cat outer sch rows ri.2 ri.1 wexprs))) (withIdx 0 rows)
   | .sort keys _ i => do
     let rows ← exec o cat outer i
-    let _ ← rows.mapM (fun r => evalEs o cat ((outSchema i, r) :: outer) keys)
+    let _ ← mapME (fun r => evalEs o cat ((outSchema i, r) :: outer) keys) rows
     pure rows                                   -- row order plays no role in column resolution
   | .limit skip fetch i => do
     let rows ← exec o cat outer i
@@ -202,10 +227,10 @@ def exec (o : Ops) (cat : String → Option (List Row)) (outer : List Scope) : P
     pure (match fetch with | some n => rest.take n | none => rest)
   | .distinct i => do
     let rows ← exec o cat outer i
-    pure rows.eraseDups
+    pure (dedupRows rows)
   | .union all _ inputs => do
     let rows ← execAll o cat outer inputs
-    pure (if all then rows else rows.eraseDups)
+    pure (if all then rows else dedupRows rows)
   | .alias _ _ _ i => exec o cat outer i
   | .empty oneRow s => .ok (if oneRow then [nulls s.length] else [])
   | .values rows width _ => do
@@ -216,19 +241,19 @@ def exec (o : Ops) (cat : String → Option (List Row)) (outer : List Scope) : P
     let rs ← exec o cat outer r
     let sl := outSchema l
     let sr := outSchema r
-    let pairs ← ls.mapM (fun lr => do
+    let pairs ← mapME (fun lr => do
       let _ ← evalEs o cat ((sl, lr) :: outer) delim
       let kl ← evalEs o cat ((sl, lr) :: outer) onL
-      let ms ← rs.filterM (fun rr => do
+      let ms ← filterME (fun rr => do
         let kr ← evalEs o cat ((sr, rr) :: outer) onR
-        pure (onL.isEmpty || keysMatch kl kr))
-      pure (lr, ms))
+        pure (onL.isEmpty || keysMatch kl kr)) rs
+      pure (lr, ms)) ls
     let matched := pairs.flatMap (·.2)
     pure (emitJoin jt sl.length sr.length pairs (rs.filter (fun rr => !matched.contains rr)))
   | .delimGet _ _ _ => .ok []                    -- fed by the parent DelimJoin at run time; produces no rows in this model
   | .vsearch info _ sortKey _ _ _ i => do
     let rows ← exec o cat outer i
-    let _ ← rows.mapM (fun r => evalE o cat ((outSchema i, r) :: outer) sortKey)
+    let _ ← mapME (fun r => evalE o cat ((outSchema i, r) :: outer) sortKey) rows
     pure ((rows.drop info.skip).take info.k)
 def execAll (o : Ops) (cat : String → Option (List Row)) (outer : List Scope) : List Plan → Except RErr (List Row)
   | [] => .ok []
